@@ -84,6 +84,29 @@ impl<'a, V> PMapValues<'a, V> {
     { unimplemented!() }
 }
 
+// --- additional ASSUMED std contracts used by the builder functions (unit U-BUILDERS) ---
+/// the set of items an `IntoIterator` argument yields
+pub uninterp spec fn iter_items<I: IntoIterator>(it: I) -> Set<I::Item>;
+/// `V::default()` for the map's value type
+pub uninterp spec fn default_of<V>() -> V;
+
+impl<T> HSet<T> {
+    /// `HashSet::extend(iter)`: union with the items the iterator yields
+    #[verifier::external_body]
+    pub fn extend_iter<I: IntoIterator<Item = T>>(&mut self, it: I) ensures final(self)@ == old(self)@.union(iter_items(it)) { unimplemented!() }
+}
+
+impl<V> PMap<V> {
+    /// `HashMap::entry(k).or_default()`: a mutable reference to the value for `k` (inserted as `V::default()` if absent);
+    /// when the borrow ends the map holds whatever was written through it
+    #[verifier::external_body]
+    pub fn entry_or_default(&mut self, k: SynTypePath) -> (r: &mut V)
+        ensures
+            *r == (if old(self)@.contains_key(k) { old(self)@[k] } else { default_of::<V>() }),
+            final(self)@ == old(self)@.insert(k, *final(r)),
+    { unimplemented!() }
+}
+
 // `parse_quote!(#path)` re-parses the tokens of a syn::Path into a syn::Path: ASSUMED to give the same path.
 #[verifier::external_body]
 pub fn parse_quote_path(p: &SynPath) -> (r: SynPath) ensures r == *p { unimplemented!() }
